@@ -12,4 +12,6 @@ for m in sorted(glob.glob(os.path.join(HERE, "seeded", "benign", "*", "meta.json
     minus = sum(1 for l in diff.splitlines() if l.startswith("-") and not l.startswith("---"))
     what = f"+{plus}/-{minus} lines" + (f"; new helpers: {', '.join(helpers[:6])}" if helpers else "")
     fc = " ".join(d["first_contact_checks_that_fired"]) or "none"
-    print(f"| {d['id']} | {d['area'][:110]} | {what} | {fc} | silent |")
+    now = d.get("checks_that_fire_now") or []
+    state = "silent" if not now else ("**not benign** (confirmed): " if d.get("not_benign") else "**open**: ") + " ".join(now)
+    print(f"| {d['id']} | {d['area'][:110]} | {what} | {fc} | {state} |")
